@@ -22,7 +22,7 @@ TRUSTED = [
 	'text = UTF-8 octets; CPython UTF-8 codec inverse on valid text',
 ]
 ASSUMPTIONS = ['guards of uri_roundtrip_partial: F1 (no code point < U+0010 in escaped positions), password only with a user name, host in canonical lower case, port None or 1..65535, path empty or starting with "/", query in QueryString normal form']
-RULE = ('component tuples: known/unknown schemes, user/password over Unicode incl. ":@/?#%", hosts of every syntactic kind (reg-name, IPv4, bracketed IPv6, IDN), ports None/default/other, 0-5 path segments and 0-4 query pairs over Unicode, fragment; '
+RULE = ('component tuples: known/unknown schemes and relative references without scheme and authority, user/password over Unicode incl. ":@/?#%", hosts of every syntactic kind (reg-name, IPv4, bracketed IPv6, IDN), ports None/default/other, 0-5 path segments and 0-4 query pairs over Unicode, fragment; '
 	'non-trivial = all eight components come back and the second serialisation is byte-identical; distinct by composed text')
 
 SCHEMES = [u'http', u'https', u'ftp', u'foo', u'x-y.z+1', u'svn+ssh']
@@ -48,6 +48,13 @@ def cases(rng, tier):
 		segs = tuple(text(rng, rng.choice((0, 1, 1, 2, 5))) for _ in range(rng.randrange(0, 6)))
 		pairs = tuple((text(rng, rng.choice((1, 1, 3))), text(rng, rng.choice((0, 1, 4)))) for _ in range(rng.randrange(0, 5)))
 		frag = text(rng, rng.choice((0, 0, 1, 5)))
+		if rng.random() < 0.15:
+			# a relative reference (origin form): no scheme, no authority
+			rel = tuple(segs) or (u'x',)
+			if not rel[0]:
+				rel = (u'r',) + rel[1:]      # RFC 3986 3.3: without an authority the path cannot begin with '//'
+			yield ('c', u'', u'', u'', u'', None, rel, pairs, frag)
+			continue
 		yield ('c', scheme, user, pw, host, port, segs, pairs, frag)
 
 
